@@ -63,11 +63,13 @@ RwUnlock(g) == /\ pc[g] = "unl1" /\ pc' = [pc EXCEPT ![g] = "unl2"]
                /\ IF mode[g] = "w" THEN rww' = FALSE /\ UNCHANGED rwr ELSE rwr' = rwr - 1 /\ UNCHANGED rww
                /\ UNCHANGED <<tok, sendq, cancelled, mode, left, c>>
 Recv(g) == /\ pc[g] = "unl2" /\ tok = 1
-           /\ IF sendq = << >> THEN tok' = 0 /\ UNCHANGED sendq /\ pc' = [pc EXCEPT ![g] = "idle"]
-              ELSE sendq' = Tail(sendq) /\ pc' = [pc EXCEPT ![g] = "idle", ![Head(sendq)] = "tok"] /\ UNCHANGED tok
-           /\ left' = [left EXCEPT ![g] = @ - 1]
-           /\ c' = CNext(c, Ev("rel_ret", g))
-           /\ UNCHANGED <<rww, rwr, cancelled, mode>>
+           /\ IF sendq = << >> THEN tok' = 0 /\ UNCHANGED sendq /\ pc' = [pc EXCEPT ![g] = "released"]
+              ELSE sendq' = Tail(sendq) /\ pc' = [pc EXCEPT ![g] = "released", ![Head(sendq)] = "tok"] /\ UNCHANGED tok
+           /\ UNCHANGED <<rww, rwr, cancelled, mode, left, c>>
+(* the release call returns; the waiter that was handed the token may return before *)
+RelRet(g) == /\ pc[g] = "released" /\ pc' = [pc EXCEPT ![g] = "idle"] /\ left' = [left EXCEPT ![g] = @ - 1]
+             /\ c' = CNext(c, Ev("rel_ret", g))
+             /\ UNCHANGED <<tok, sendq, rww, rwr, cancelled, mode>>
 (* a quiescent point as the harness sees it: everybody is blocked in the select or inside a critical section *)
 Quiet == /\ \A g \in G : pc[g] \in {"idle", "blocked", "in"}
          /\ c' = CNext(c, [ev |-> "quiet"])
@@ -79,7 +81,7 @@ Stuck == /\ \A g \in G : pc[g] = "blocked" \/ (pc[g] = "idle" /\ left[g] = 0)
 
 Next == \/ Stuck \/ Quiet
         \/ \E g \in G : \/ \E m \in Modes, pre \in BOOLEAN : Call(g, m, pre)
-                        \/ Select(g) \/ Cancel(g) \/ TakeRW(g) \/ Ret(g) \/ RetErr(g) \/ Exit(g) \/ RwUnlock(g) \/ Recv(g)
+                        \/ Select(g) \/ Cancel(g) \/ TakeRW(g) \/ Ret(g) \/ RetErr(g) \/ Exit(g) \/ RwUnlock(g) \/ Recv(g) \/ RelRet(g)
 Spec == Init /\ [][Next]_vars /\ WF_vars(Next)
 
 Contract == ~IsBad(c)
